@@ -47,7 +47,7 @@ New == /\ Is("new") /\ l' = l + 1 /\ e' = Cur /\ UNCHANGED scr
 OnInst(name, After(_, _)) ==
   /\ Is(name) /\ st[Cur.id].alive
   /\ l' = l + 1 /\ e' = Cur /\ UNCHANGED scr
-  /\ st' = [st EXCEPT ![Cur.id] = After(st[Cur.id], Cur)]
+  /\ st' = [st EXCEPT ![Cur.id] = WithMin(After(st[Cur.id], Cur), Cur)]
 
 Process  == OnInst("process", AfterProcess)
 Partial  == OnInst("partial", AfterProcess)
@@ -113,7 +113,9 @@ P(name) ==
     [] name = "C04_Consumed"     -> OnCall => C04_Consumed(I, e)
     [] name = "C04_Written"      -> OnCall => C04_Written(I, e)
     [] name = "C04_Allocate"     -> OnCall => C04_Allocate(I, e)
+    [] name = "C04_LifeBounds"   -> OnCall => C04_LifeBounds(I, e)
     [] name = "C16_Flush"        -> OnCall => C16_Flush(I, e)
+    [] name = "C16_VecForward"   -> OnCall => C16_VecForward(I, e)
     [] name = "C06_Increasing"   -> OnCall => C06_Increasing(I, e)
     [] name = "C06_StepInRange"  -> OnCall => C06_StepInRange(I, e)
     [] name = "C06_RampMonotone" -> OnCall => C06_RampMonotone(I, e)
@@ -144,7 +146,9 @@ H_C04_Bounds == Hard("C04_Bounds")             S_C04_Bounds == Soft("C04_Bounds"
 H_C04_Consumed == Hard("C04_Consumed")         S_C04_Consumed == Soft("C04_Consumed")
 H_C04_Written == Hard("C04_Written")           S_C04_Written == Soft("C04_Written")
 H_C04_Allocate == Hard("C04_Allocate")         S_C04_Allocate == Soft("C04_Allocate")
+H_C04_LifeBounds == Hard("C04_LifeBounds")     S_C04_LifeBounds == Soft("C04_LifeBounds")
 H_C16_Flush == Hard("C16_Flush")               S_C16_Flush == Soft("C16_Flush")
+H_C16_VecForward == Hard("C16_VecForward")     S_C16_VecForward == Soft("C16_VecForward")
 H_C06_Increasing == Hard("C06_Increasing")     S_C06_Increasing == Soft("C06_Increasing")
 H_C06_StepInRange == Hard("C06_StepInRange")   S_C06_StepInRange == Soft("C06_StepInRange")
 H_C06_RampMonotone == Hard("C06_RampMonotone") S_C06_RampMonotone == Soft("C06_RampMonotone")
